@@ -87,6 +87,10 @@ video_sink_thread(struct video_sink_s* const self)
 Error:
     LOGE("[stream %d]: SINK: Exiting thread (Error)", self->stream_id);
     self->sig_stop_source(self);
+    // Nothing will drain the queue anymore: refuse writes so a writer that is
+    // (or gets) blocked on a full queue returns instead of waiting forever.
+    // acquire_stop()/video_sink_start() accept writes again.
+    channel_accept_writes(&self->in, 0);
     channel_read_unmap(&self->in, &self->reader, 0);
     storage_stop(self->storage);
     self->is_running = 0;
